@@ -351,7 +351,11 @@ def random_spec(rng, depth=2, allow_slow=False, allow_fh_required=True, positive
     kind = ["ensemble", "pipeline", "multiplex", "stack" if allow_fh_required else "ensemble"][int(rng.integers(0, 4))]
     sub = lambda pos=positive: random_spec(rng, depth - 1, allow_slow, allow_fh_required, pos)  # noqa
     if kind == "ensemble":
-        return ["ensemble", {"aggfunc": ["mean", "median", "min", "max"][int(rng.integers(0, 4))]}, [sub() for _ in range(int(rng.integers(2, 4)))]]
+        p = {"aggfunc": ["mean", "median", "min", "max"][int(rng.integers(0, 4))]}
+        members = [sub() for _ in range(int(rng.integers(2, 4)))]
+        if rng.random() < 0.12:
+            p["n_jobs"] = 2        # joblib's default backend: members are fitted / updated in worker processes
+        return ["ensemble", p, members]
     if kind == "pipeline":
         k = int(rng.integers(1, 3))
         ts, pos = [], positive
